@@ -689,7 +689,8 @@ class CeiloChunk(AbstractChunk):
 
         # Add a column to the original data to keep track of the slice id.
         # First, set them all to -1 and force the correct dtype. I hate pandas for this ...
-        self.data.loc[:, 'slice_id'] = -1
+        # (not via .loc[:, ...], which pandas refuses for a frame left empty by the MSA cropping)
+        self.data['slice_id'] = -1
         self.data['slice_id'] = self.data.loc[:, 'slice_id'].astype(int)
 
         # If I have only 1 valid point ...
@@ -809,7 +810,7 @@ class CeiloChunk(AbstractChunk):
         self._slices['isolated'] = None
 
         # Prepare to add the group id to the data frame
-        self.data.loc[:, 'group_id'] = None
+        self.data['group_id'] = None
 
         # Prepare a list of slices that are overlapping with one another.
         slice_bundles = []
@@ -932,7 +933,7 @@ class CeiloChunk(AbstractChunk):
                                  'finding groups first !')
 
         # Get ready to add the layering info to the data
-        self.data.loc[:, 'layer_id'] = None
+        self.data['layer_id'] = None
 
         # The ids of the sub-layers must not clash with any of the (inherited) group ids.
         # Start them at 100, unless the group ids already reach that high.
